@@ -173,6 +173,9 @@ def check_C12(ctx):
     ALPH = ['foo', ';', ',', '<ID>', '<INT>', '<V>', '<A>', '<P>']
     L = ctx.n(3, 4)
     pats = [list(p) for n in range(1, L + 1) for p in itertools.product(ALPH, repeat=n)]
+    # one length further over the symbols that make patterns open-ended or separator-ambiguous
+    RED = ['foo', ';', ',', '<A>', '<P>']
+    pats += [list(p) for p in itertools.product(RED, repeat=L + 1)]
     ctx.cov['exhaustive'] = True
     ctx.cov['patterns'] = len(pats)
     # each pattern alone, with a second harmless macro to see that a rejected one does not block others
@@ -218,7 +221,31 @@ def check_C12(ctx):
     return finish(ctx)
 
 
+def chain_grammar(r):
+    """nullability / FIRST information that has to travel through a chain of unit rules, with the
+    non-terminals created top-down or bottom-up, plus a start rule that needs the result"""
+    k = r.randint(2, 5)
+    order = list(range(1, k + 2))
+    if r.random() < 0.5:
+        order.reverse()
+    # non-terminal 0 = start; chain members order[0] -> order[1] -> ... -> last
+    rules = []
+    for a, b in zip(order, order[1:]):
+        rules.append((a, [('n', b)]))
+    last = order[-1]
+    rules.append((last, [] if r.random() < 0.7 else [('t', 2)]))
+    if r.random() < 0.5:
+        rules.append((order[0], [('t', 3)]))
+    pre = [('t', 1)] if r.random() < 0.7 else []
+    post = [('t', 1)] if r.random() < 0.7 else []
+    rules.insert(0, (0, pre + [('n', order[0])] + post))
+    r.shuffle(rules) if r.random() < 0.3 else None
+    return k + 2, rules
+
+
 def random_grammar(r):
+    if r.random() < 0.25:
+        return chain_grammar(r)
     N = r.randint(1, 3)
     T = r.randint(1, 3)
     rules = []
